@@ -543,6 +543,9 @@ class ArrNormDomain(NormDomain):
                     return self.binop(ast.Mult(), a, b, node)
                 return Unknown('matmul scalar')
             return it.binop(ast.Mult(), a, b, node)
+        if dotted.startswith('operator.') and len(args) == 2 and dotted.split('.')[1] in ('mul', 'add', 'sub', 'truediv', 'floordiv', 'pow', 'matmul'):
+            op = {'mul': ast.Mult, 'add': ast.Add, 'sub': ast.Sub, 'truediv': ast.Div, 'floordiv': ast.FloorDiv, 'pow': ast.Pow, 'matmul': ast.MatMult}[dotted.split('.')[1]]()
+            return it.binop(op, args[0], args[1], node)
         if dotted == 'functools.reduce' and len(args) >= 2:
             items = it.iterate(args[1], node)
             if items is None:
